@@ -151,6 +151,14 @@ theorem submit_loop_step_semantics (n per burst : Nat) (hp : 1 ≤ per) (delay :
       loopCount n per s = r.2.2 ∧ loopCount n per s = n :=
   runLoop_refines_simulate n per burst hp delay
 
+/-- the fuel is only a bound on the passes looked at: once the loop has ended,
+    any larger bound gives the same final state, and the final state is one in
+    which the pool is closed (the `break` was taken, not the fuel exhausted) -/
+theorem submit_loop_fuel_irrelevant (n per burst : Nat) (delay : Nat → Nat) (fuel extra : Nat)
+    (s s' : LoopState) (h : runLoop n per burst delay fuel s = some s') :
+    runLoop n per burst delay (fuel + extra) s = some s' ∧ poolClosed n per s' = true :=
+  ⟨runLoop_fuel_mono n per burst delay fuel extra s s' h, runLoop_final_closed n per burst delay fuel s s' h⟩
+
 /-- one pass of the loop: it breaks exactly when a submitted job whose result
     closes the pool completed strictly before this pass — in the invariant
     state of pass `k` (clock `tSubmit k`, jobs `0 … k-1` submitted) -/
